@@ -26,6 +26,7 @@ import (
 	"os"
 	"path/filepath"
 	"regexp"
+	"runtime/debug"
 	"strings"
 	"sync"
 	"testing"
@@ -71,12 +72,53 @@ func (h *x13H) count(what string) { h.r.Count(what+"/"+h.kind, 1) }
 // guard runs one phase under recover(); a panic is a violation with signature
 // (kind, first easegress frame, message class).
 func (h *x13H) guard(phase string, f func()) (panicked bool) {
-	msg, site, p := kit.Recover(f)
+	msg, site, p := x13Recover(f)
 	if !p {
 		return false
 	}
 	h.report(phase, msg, site)
 	return true
+}
+
+// x13Recover runs f and returns the panic (if any) with the easegress site of the
+// ORIGINAL panic: when a deferred function panics again while the first panic unwinds
+// (e.g. a metrics collector that dereferences the missing result), the stack holds
+// both, and the cause is the oldest one.
+func x13Recover(f func()) (msg, site string, panicked bool) {
+	defer func() {
+		if e := recover(); e != nil {
+			panicked = true
+			msg = fmt.Sprint(e)
+			site = x13OriginSite(string(debug.Stack()))
+		}
+	}()
+	f()
+	return
+}
+
+func x13OriginSite(stack string) string {
+	lines := strings.Split(stack, "\n")
+	last := -1
+	for i, l := range lines {
+		if strings.HasPrefix(l, "panic(") || strings.HasPrefix(l, "runtime.sigpanic") || strings.HasPrefix(l, "runtime.panic") || strings.HasPrefix(l, "runtime.goPanic") {
+			last = i
+		}
+	}
+	for i := last + 1; i >= 1 && i+1 < len(lines); i++ {
+		l := lines[i]
+		if !strings.HasPrefix(l, "github.com/megaease/easegress/") {
+			continue
+		}
+		if strings.Contains(lines[i+1], "zz_verif") {
+			continue
+		}
+		fn := l
+		if j := strings.LastIndex(fn, "("); j > 0 {
+			fn = fn[:j]
+		}
+		return strings.TrimPrefix(fn, "github.com/megaease/easegress/")
+	}
+	return "unknown"
 }
 
 // x13MsgNorm reduces messages that embed spec values (names, template positions) to
@@ -317,7 +359,7 @@ func (h *x13H) runFilter(seed *x13Seed, tree map[string]interface{}) (accepted b
 	mk := func(prev filters.Filter, sp filters.Spec) filters.Filter {
 		var f filters.Filter
 		bad := false
-		msg, site, p := kit.Recover(func() {
+		msg, site, p := x13Recover(func() {
 			f = filters.Create(sp)
 			if prev == nil {
 				f.Init()
